@@ -52,6 +52,10 @@ def shards(tier, seed):
     out = [{"kind": "pairs", "cases": c} for c in PW.chunk(cases, 64 if tier == "thorough" else 16)]
     if tier == "thorough":
         out += [{"kind": "pairs", "cases": c} for c in PW.chunk(PW.lattice_cases(seed, "c16", "grey", 12), 32)]
+    # pairs whose fix lies *against* the lightness search's own direction (the end of that direction - white on a background
+    # with OKLCH L < 0.5, black otherwise - does not reach the minimum; vivid text on the other side hugging it): the default
+    # mode repairs about 3 % of them through its chroma descent, and those are the premise of the mode relation here
+    out += [{"kind": "against", "seed": seed, "idx": i, "n": 500 if tier == "quick" else 4000} for i in range(4 if tier == "quick" else 16)]
     return out
 
 
@@ -98,8 +102,52 @@ def judge(case, obs, rec):
                     "results": {f"mode{m},large={l},vr={v}": list(o) for (m, l, v), o in sorted(res.items())}})
 
 
+def against_direction(shard, rec, lib):
+    from cmv.oracles import oklab
+    rnd = G.rng("c16against", shard["seed"], shard["idx"])
+    done = 0
+    guard = 0
+    while done < shard["n"] and guard < shard["n"] * 60:
+        guard += 1
+        large, vr = rnd.random() < 0.5, rnd.random() < 0.3
+        mn = wcag.minimum(large, vr)
+        t = [rnd.randrange(0, 30), rnd.randrange(225, 256), rnd.randrange(256)]
+        rnd.shuffle(t)
+        t = tuple(t)
+        b = G.steer(tuple(rnd.randrange(10, 230) for _ in range(3)), t, mn * rnd.uniform(0.975, 0.999))
+        if b is None or not (0.97 * mn <= wcag.ratio(t, b) < mn):
+            continue
+        b = tuple(b)
+        end = (255, 255, 255) if oklab.lab_direct(b)[0] < 0.5 else (0, 0, 0)
+        if wcag.ratio(end, b) >= mn:
+            continue
+        done += 1
+        rec.ev()
+        rec.count("against_direction_pairs")
+        base = {"text": list(t), "bg": list(b), "tk": "tuple", "bk": "tuple", "t": list(t), "b": list(b)}
+        try:
+            r1 = lib.ColorPair(t, b, large_text=large).make_readable(mode=1, very_readable=vr)
+            if r1[1] is not True:
+                continue
+            rec.count("premise_mode1_success")
+            rec.count("against_direction_mode1_successes")
+            rec.nontrivial((t, b, large, vr, "mode"))
+            r2 = lib.ColorPair(t, b, large_text=large).make_readable(mode=2, very_readable=vr)
+            rb = lib.make_readable_bulk([(t, b, large)], mode=2, very_readable=vr)[0]
+        except Exception as e:
+            rec.violation(f"make_readable raised {type(e).__name__}: {e} for {t} on {b}", dict(base, rel="exc"))
+            continue
+        rec.count("rel_mode_judged")
+        if not (r2[1] is True and r2[0] == r1[0]):
+            rec.violation(f"text={t} bg={b} large={large} vr={vr}: mode 1 -> {r1!r} but mode 2 -> {r2!r}", dict(base, rel="mode", large=large, vr=vr, observed=repr((r1, r2))))
+        elif tuple(rb[0]) != tuple(r1[0]) or rb[1] not in ("readable", "very readable"):
+            rec.violation(f"text={t} bg={b} large={large} vr={vr}: mode 1 -> {r1!r} but bulk mode 2 -> {rb!r}", dict(base, rel="mode", large=large, vr=vr, observed=repr((r1, rb))))
+
+
 def work(shard, rec):
     from cmv.lib import Lib
+    if shard["kind"] == "against":
+        return against_direction(shard, rec, Lib())
     PW.run_cases(shard, rec, Lib(), [judge])
 
 
